@@ -63,6 +63,27 @@ def c16Scan (c : Cfg) : Nat → Nat → List Rec16 → Option String
 /-- the property on a run observed from iteration 0 of a freshly constructed generator -/
 def holdsC16 (c : Cfg) (tr : List Rec16) : Option String := c16Scan c 0 0 tr
 
+/-! ### rejections -/
+
+/-- one store is configured legally: a non-empty initial set within the allocation, a non-empty
+    selected set taken from a candidate sample at least as large and that the allocation can hold at
+    all, a batch the allocation can serve -/
+def legalStore (n nStart sel samp b : Nat) : Bool :=
+  decide (1 ≤ nStart) && decide (nStart ≤ n) && decide (1 ≤ sel) && decide (sel ≤ samp) &&
+  decide (sel ≤ n) && decide (1 ≤ b) && decide (b ≤ n)
+
+/-- the configurations the generators and `rar_parameters` document as usable (`missingStart`: RAR
+    requested without `n_start` / `nt_start`; `dim`: dimension of the space domain) -/
+def legalCfg (c : Cfg) (sampT sampX bT bX dim : Nat) (missingStart : Bool) : Bool :=
+  !missingStart && decide (1 ≤ c.every) &&
+  (!c.kind.hasT || legalStore c.nt c.ntStart c.selT sampT bT) &&
+  (!c.kind.hasX || (legalStore c.n c.nStart c.selX sampX bX && decide (1 ≤ dim)))
+
+/-- a legal configuration must run: its rejection (at construction or when `trigger_rar` is traced)
+    breaks the property for every run of that configuration -/
+def rejectedCheck (legal : Bool) : Option String :=
+  if legal then some "valid-configuration-rejected" else none
+
 /-- what the model shows of one iteration -/
 def recOfObs (c : Cfg) (o : Obs) : Rec16 :=
   { stepped := o.stepped, iterNb := o.st.steps,
